@@ -73,4 +73,34 @@ def kite2 (A B C : Pt K) : K :=
   let O := circumcentre A B C
   triArea2 A (mid A B) O + triArea2 A O (mid A C)
 
+/-! ### dual edges (tdgl/finite_volume/util.py `get_dual_edge_lengths`, 59-97)
+
+The dual length of an inner edge is coded as the **unsigned** distance between the circumcentres of the two
+triangles on it, `norm(dual_sites[t0] - dual_sites[t1])`; that of a boundary edge as the distance from the
+single circumcentre to the edge centre.  `ccOffset` is the signed position of a circumcentre on the
+perpendicular bisector of `AB` (in units of `|AB|`, positive on the left of `A → B`, i.e. on the side of `C`
+for a positively oriented triangle): it is `cot(∠ACB) / 2`. -/
+
+/-- signed offset of the circumcentre of `(A, B, C)` from `mid A B` along `perp (B − A) = (−(B−A).2, (B−A).1)` -/
+def ccOffset (A B C : Pt K) : K :=
+  ((A.1 - C.1) * (B.1 - C.1) + (A.2 - C.2) * (B.2 - C.2)) / (2 * triArea2 A B C)
+
+/-- the in-circle determinant: positive iff `D` lies strictly inside the circumcircle of the positively
+    oriented triangle `(A, B, C)` -/
+def inCircle (A B C D : Pt K) : K :=
+  let ax := A.1 - D.1
+  let ay := A.2 - D.2
+  let bx := B.1 - D.1
+  let b_y := B.2 - D.2
+  let cx := C.1 - D.1
+  let cy := C.2 - D.2
+  (ax * ax + ay * ay) * (bx * cy - cx * b_y) - (bx * bx + b_y * b_y) * (ax * cy - cx * ay)
+    + (cx * cx + cy * cy) * (ax * b_y - bx * ay)
+
+/-- squared dual length of the inner edge `AB` shared by the triangles `(A, B, C)` and `(B, A, D)`, as coded -/
+def dualInner2 (A B C D : Pt K) : K := dist2 (circumcentre A B C) (circumcentre B A D)
+
+/-- squared dual length of the boundary edge `AB` of the triangle `(A, B, C)`, as coded -/
+def dualBoundary2 (A B C : Pt K) : K := dist2 (circumcentre A B C) (mid A B)
+
 end Tdgl
